@@ -3,6 +3,7 @@
 package tun
 
 import (
+	"time"
 	"strings"
 	"testing"
 
@@ -12,6 +13,7 @@ import (
 
 func TestC05B(t *testing.T) {
 	rec := common.NewRec("C05", "bubble")
+	bubbleWD = common.NewWatchdog(rec, 90*time.Second)
 	completed := false
 	defer func() { rec.Finish(completed) }()
 	run := func(p *Plan) *common.Fail {
